@@ -229,6 +229,74 @@ func genC06(c *Ctx) {
 			}
 		}
 	}
+	// call histories stated as the property's own predicate (no model of aliasing needed): whatever the history,
+	// a value returned by ThresholdSignature as (sig, nil) verifies under the group key the object was built with.
+	//  (a) every share enters through VerifyAndAdd, then the caller overwrites a buffer it had passed in;
+	//  (b) the object is built with a group key that is not the one the key shares interpolate to;
+	//  (c) pools filled by VerifyAndAdd only / TrustedAdd only / mixed, valid shares, repeated calls.
+	sigOK := func(s *thSetup, group crypto.PublicKey, insp crypto.ThresholdSignatureInspector) string {
+		return guard(func() string {
+			out := ""
+			for rep := 0; rep < 2; rep++ {
+				sg, err := insp.ThresholdSignature()
+				if err != nil {
+					out += " err"
+					continue
+				}
+				ok, _ := group.Verify(sg, s.msg, crypto.NewExpandMsgXOFKMAC128(s.tag))
+				ok2, _ := insp.VerifyThresholdSignature(sg)
+				if !ok || !ok2 {
+					return "returned-signature-invalid-under-group-key"
+				}
+				out += " valid"
+			}
+			return "ok"
+		})
+	}
+	for hi, nt := range [][2]int{{3, 1}, {4, 2}, {5, 2}, {7, 3}} {
+		for mode := 0; mode < 3; mode++ { // 0: VerifyAndAdd only, 1: TrustedAdd only, 2: mixed
+			for victim := 0; victim <= nt[1]; victim++ {
+				s := newThSetup(c, nt[0], nt[1])
+				insp, err := crypto.NewBLSThresholdSignatureInspector(s.group, s.pks, s.t, s.msg, s.tag)
+				if err != nil {
+					panic(err)
+				}
+				bufs := make([][]byte, s.t+1)
+				for i := 0; i <= s.t; i++ {
+					bufs[i] = append([]byte{}, s.shares[i]...)
+					if mode == 0 || (mode == 2 && i%2 == 0) {
+						insp.VerifyAndAdd(i, bufs[i])
+					} else {
+						insp.TrustedAdd(i, bufs[i])
+					}
+				}
+				// the caller re-uses the buffer of one share it had already handed over
+				switch (hi + victim) % 3 {
+				case 0:
+					copy(bufs[victim], s.shares[(victim+1)%s.n])
+				case 1:
+					copy(bufs[victim], askBytes("e1 mul 0x"+c.randScalar().Text(16)+" "+hx(s.hpoint)))
+				case 2:
+					bufs[victim][20] ^= 4
+				}
+				c.Case(fmt.Sprintf("object-history/buffer-overwritten/mode%d", mode), "expect ok #", sigOK(s, s.group, insp))
+			}
+			// a group key that does not match the key shares
+			s := newThSetup(c, nt[0], nt[1])
+			other := skFromInt(c.randScalar()).PublicKey()
+			insp, err := crypto.NewBLSThresholdSignatureInspector(other, s.pks, s.t, s.msg, s.tag)
+			if err == nil {
+				for i := 0; i <= s.t; i++ {
+					if mode == 0 || (mode == 2 && i%2 == 0) {
+						insp.VerifyAndAdd(i, s.shares[i])
+					} else {
+						insp.TrustedAdd(i, s.shares[i])
+					}
+				}
+				c.Case(fmt.Sprintf("object-history/foreign-group-key/mode%d", mode), "expect ok #", sigOK(s, other, insp))
+			}
+		}
+	}
 	// constructor guards
 	s := newThSetup(c, 3, 1)
 	ec := ecSk(ecCurves[0], big.NewInt(3))
